@@ -482,7 +482,8 @@ pub fn gen_message(src: &mut Src, o: &GenOpts) -> Message {
         // filler: push later names beyond offset 16383 / packet beyond 8192 / 65535
         let k = src.range(1, 3);
         for _ in 0..k {
-            let size = *src.pick(&[9000usize, 17000, 30000, 65000, 3000, 8050, 7900]);
+            // incl. the ten largest data lengths (record length beyond 16 bits) and their neighbours
+            let size = *src.pick(&[9000usize, 17000, 30000, 65000, 3000, 8050, 7900, 65535, 65534, 65526, 65525, 65524, 65500]);
             let mut d = vec![0xc0u8; size];
             d[0] = src.u8();
             let r = Record { owner: gen_name(src, &mut ctx), rtype: T_TXT, class: 1, ttl: 7, rdata: Rdata::Opaque(d) };
